@@ -346,15 +346,14 @@ class File:
         if not isinstance(obj, Section):
             raise TypeError("Object to be copied is not a Section")
 
-        if obj._sec_parent:
+        if isinstance(obj._parent, Section):
             src = "{}/{}".format("sections", obj.name)
         else:
             src = "{}/{}".format("metadata", obj.name)
         clsname = "metadata"
         if not name:
             name = str(obj.name)
-        sec = self._h5group.open_group("sections", True)
-        if name in sec:
+        if name in self._metadata:
             raise NameError("Name already exist. Possible solution is to "
                             "provide a new name when copying destination "
                             "is the same as the source parent")
@@ -364,9 +363,9 @@ class File:
 
         if not children:
             for prop in obj.props:
-                self.sections[obj.name].create_property(copy_from=prop, keep_copy_id=keep_id)
+                self.sections[name].create_property(copy_from=prop, keep_copy_id=keep_id)
 
-        return self.sections[obj.name]
+        return self.sections[name]
 
     def flush(self):
         self._h5file.flush()
